@@ -1,11 +1,12 @@
 (* C13 driver.  Case syntax (names are the hex of the uncompressed absolute
    wire form, `00` is the root):
+     bm <t,t,..|-> <p,p,..|-> [<ctor>]  (ctor: which constructor made the builder; all start empty)
      bm <t,t,..|-> <p,p,..|->                    => <bitmap hex> <one of 1 0 P per probe> <iterated types>
      nsec <apex> <dnskey 0|1> <name>/<rtype>/<class>/<ttl>/<soa minimum> ..
                                                  => Ok <owner>/<next>/<bitmap>/<ttl>/<class> .. | Err n | Panic
      nsec3 <apex> <dnskey> <alg> <flags> <iters> <salt> <excl 0|1> <s|m|f<ttl>> <name>/<rtype>/<class>/<ttl>/<min> ..
                                                  => Ok <alg>/<flags>/<iters>/<salt> <param owner>/<class>/<ttl>/<alg>/<flags>/<iters>/<salt> <class> <hash>/<next>/<bitmap>/<ttl> .. | Err n | Panic
-     hash <name> <iters> <salt>                  => <hash hex>
+     hash <name> <iters> <salt> [<repr>]         => <hash hex>   (repr: how the harness held the name; the model does not care)
      dedup <name>/<rtype>/<u|k>/<rdata> ..       => <name>/<rtype> ..
      srt <class>/<name>/<rtype>/<u|k>/<rdata> .. => <class>/<name>/<rtype>/<rdata> ..   (sort + dedup)
      label <hash> <apex>                         => Ok <owner name> <decoded first label>
@@ -41,7 +42,7 @@ let trec_of s = match String.split_on_char '/' s with
 let flag s = (s = "1")
 let show_list f l = if l = [] then "-" else String.concat " " (List.map f l)
 let handle = function
-  | ["bm"; ts; ps] ->
+  | "bm" :: ts :: ps :: ([] | [_]) ->
       let (w, rs) = c13_bitmap (nlist ts) (nlist ps) in
       hex_of_bytes w ^ " " ^
       (if rs = [] then "-" else String.concat "" (List.map (fun r ->
@@ -74,7 +75,7 @@ let handle = function
             hex_of_bytes r.h_owner ^ "/" ^ hex_of_bytes r.h_next ^ "/" ^ hex_of_bytes r.h_types ^ "/" ^
             string_of_int (int_of_n ttl)) o.o_recs)
         (c13_nsec3_t (name_of_hex apex) c m (List.map trec_of recs))
-  | ["hash"; nm; iters; salt] ->
+  | "hash" :: nm :: iters :: salt :: ([] | [_]) ->
       hex_of_bytes (c13_hash (name_of_hex nm) (n_of_int (int_of_string iters)) (bytes_of_hex salt))
   | "dedup" :: recs ->
       let srec_of s = match String.split_on_char '/' s with
